@@ -95,6 +95,26 @@ pub fn gen_domain_map(rng: &mut Rng, mix: &Mix, dom: Domain) -> Option<(MapCase,
     None
 }
 
+/// `gen_domain_map` plus two rare classes for monitors whose property quantifies over *all* maps: `long_pm` per mille of
+/// the cases are long plain maps (1 500 - 6 000 objects), `susp_pm` per mille are cheap maps that `check_suspicion()`
+/// rejects (these bypass the domain filter on purpose).
+pub fn gen_domain_map_ext(rng: &mut Rng, mix: &Mix, dom: Domain, long_pm: u64, susp_pm: u64) -> Option<(MapCase, Beatmap)> {
+    let r = rng.below(1000);
+    if r < long_pm + susp_pm {
+        let file_mode = match mix.mode {
+            Some(m) => m,
+            None => *rng.pick(&[0u8, 0, 0, 1, 2, 3]),
+        };
+        let (text, tag) = if r < long_pm {
+            (osu::long_file(rng, file_mode).render(), "long")
+        } else {
+            (osu::suspicious_cheap_file(rng, file_mode).render(), "suspicious-cheap")
+        };
+        return maps::decode(&text).map(|m| (MapCase { text, tag: tag.into() }, m));
+    }
+    gen_domain_map(rng, mix, dom)
+}
+
 pub fn pick_mode(rng: &mut Rng, map: &Beatmap) -> GameMode {
     let r = maps::reachable_modes(map);
     if r.len() > 1 && rng.chance(0.3) {
